@@ -193,12 +193,12 @@ prop(
     "exploration",
     "(1) sequential programs over {synthesize(u), clone().synthesize(u), open/step/finish/drop live generators, read all getters} on one engine, every output compared bit-for-bit with the same (voice file, condition values, labels) synthesized on a freshly loaded engine; (2) pairs of engines driven to the same final condition through different setter histories (junk, out-of-range values, rejected weight updates first); (3) k in {2,4,8,16} threads sharing one &Engine, random programs over 6 utterances with randomised delays between calls, every call logged {thread, op, utterance, t_call, t_return, hash} and compared with the single-threaded fresh-engine hash; the concurrent workload repeated under ThreadSanitizer (std rebuilt) and, in the thorough tier, a tiny-voice variant with a regex-fallback question under Miri with different scheduler seeds; compile-time Send+Sync assertion. non-trivial = a call that overlapped another call on the same engine (distinct overlap signatures), or a sequential program interleaving >= 2 utterances with a live generator",
     [
-        st("checked"),
+        st("checked", env={"JBV_WATCHDOG_S": "300"}),
         st("tsan", name="tsan", args=["--sub", "concurrent", "--scale", "0.5"], env=TSAN_ENV, canary="tsan", death_is_violation=True, shards=8),
     ],
     [
-        st("checked"),
-        st("release"),
+        st("checked", env={"JBV_WATCHDOG_S": "300"}),
+        st("release", env={"JBV_WATCHDOG_S": "300"}),
         st("tsan", name="tsan", args=["--sub", "concurrent", "--scale", "0.25"], env=TSAN_ENV, canary="tsan", death_is_violation=True, shards=8),
         st("miri", name="miri", args=[], env={"MIRIFLAGS": "-Zmiri-disable-isolation -Zmiri-deterministic-floats -Zmiri-seed={shard}", "JBV_MIRI": "1", "JBV_WATCHDOG_S": "7200"}, canary="miri", death_is_violation=True, shards=4, timeout_s=3 * 3600),
     ],
